@@ -167,6 +167,12 @@ def trackStep (t : Track) (op : Val) : Option (Except Err (Val × Track)) :=
       | some (.ok content), some q => some ((t.addNotes content q).map fun r => (toVal r.1, r.2))
       | some (.error e), _ => some (.error e)
       | _, _ => none
+    else if tg = lit "add_copy" then                 -- a container copy-constructed from an earlier entry's container
+      match optInt c, ratOf v with
+      | some i, some q =>
+        let content := (t.getNotes[i.toNat]?).bind (·.content)
+        some ((t.addNotes content q).map fun r => (toVal r.1, r.2))
+      | _, _ => none
     else if tg = lit "from_chords" then
       match c, ratOf v with
       | .list items, some q => (items.mapM decodeItem).map fun its => (t.fromChords its q).map fun t' => (.nil, t')
